@@ -24,6 +24,7 @@ func c19(c *Ctx) {
 	c19R5(c)
 	c19R6(c)
 	c19R7(c)
+	c19R8(c)
 }
 
 // R1 slot conservation in the node reconciler.
@@ -948,4 +949,66 @@ func c19R7(c *Ctx) {
 		})
 	}
 	c.Floor("C19.R7", "skips of the patch", 1, nskip+inLoop)
+}
+
+// R8: the limits recorded for a node are those of the instance type recorded
+// next to them. In the cluster controller's createOrUpdate, whenever the node's
+// metadata (instance type, id, zone, region) is rewritten, the limits (NodeCap)
+// are rewritten on the same path from the limits of that instance type — a
+// resize in place keeps the instance id, so "same id" is no reason to keep them.
+func c19R8(c *Ctx) {
+	p := c.P
+	c.Rule("C19.R8", "controller/node createOrUpdate: every path that rewrites Spec.NodeMetadata and goes on to succeed also rewrites Spec.NodeCap, from GetLimit of the new instance type")
+	fn := p.Func("pkg/controller/node", "ReconcileNode.createOrUpdate")
+	meta := p.Field(apiPkg, "NodeSpec", "NodeMetadata")
+	capF := p.Field(apiPkg, "NodeSpec", "NodeCap")
+	if fn == nil || meta == nil || capF == nil {
+		c.Unres("C19.R8", "createOrUpdate / NodeSpec.NodeMetadata / NodeSpec.NodeCap", "not found")
+		return
+	}
+	info := fn.Info()
+	sig := fn.Obj.Type().(*types.Signature)
+	ms := p.StoresTo([]*FuncInfo{fn}, meta)
+	cs := p.StoresTo([]*FuncInfo{fn}, capF)
+	isCap := func(n ast.Node) bool {
+		for _, s := range cs {
+			if !s.InLit && n.Pos() <= s.Node.Pos() && s.Node.End() <= n.End() {
+				return true
+			}
+		}
+		return false
+	}
+	q := NewPathQuery(p, fn, nil)
+	n := 0
+	for _, s := range ms {
+		if s.InLit {
+			continue
+		}
+		n++
+		w := q.Escapes(isExactly(s.Node), nil, isCap, func(ret *ast.ReturnStmt) bool {
+			return guardedFailure(fn, sig, ret)
+		})
+		c.Check(w == nil, "C19.R8", "createOrUpdate: new metadata comes with new limits", p.Pos(s.Node), fn.Key(), "must-pass: Spec.NodeMetadata = … → Spec.NodeCap = … → success", "path: "+p.describePath(w))
+	}
+	c.Floor("C19.R8", "stores of Spec.NodeMetadata in createOrUpdate", 1, n)
+	// the limits are those of the node's instance type
+	for _, s := range cs {
+		if s.InLit {
+			continue
+		}
+		src := sliceText(fn, nil, 0)
+		_ = src
+		okSrc := false
+		ast.Inspect(s.RHS, func(k ast.Node) bool {
+			if id, ok := k.(*ast.Ident); ok {
+				if v, ok := info.ObjectOf(id).(*types.Var); ok && !v.IsField() {
+					if t := sliceText(fn, v, 3); strings.Contains(t, "GetLimit(") && strings.Contains(t, ".InstanceType") {
+						okSrc = true
+					}
+				}
+			}
+			return true
+		})
+		c.Check(okSrc, "C19.R8", "createOrUpdate: the limits come from GetLimit(<instance type>)", p.Pos(s.Node), fn.Key(), "NodeCap{…limit…} with limit := GetLimit(…, <node>.InstanceType)", "source not recognised")
+	}
 }
